@@ -44,9 +44,8 @@ SEARCH_END = "\\ze\\(\\s\\|[),.?!;:]\\|$\\)"
 def setup_worker() -> None:
     import zorg.app.runners._run_action as ra
 
-    f = ra.run_action_open
-    harness.COUNTERS.watch("run_action_open", getattr(f, "__wrapped__", f))
-    harness.COUNTERS.watch("_open_link", ra._open_link)
+    harness.COUNTERS.watch_attr(ra, "run_action_open")
+    harness.COUNTERS.watch_attr(ra, "_open_link")
     TRACER.install()
     # stub `open` first on PATH
     bindir = harness.scratch() / "bin"
